@@ -251,3 +251,7 @@ pub use crate::solver::core::verif_hooks_checkpoints;
 /// clique-graph merge strategy pass by pass (needs `sdp`)
 #[cfg(feature = "sdp")]
 pub use crate::solver::chordal::verif_hooks_cg as chordal_cg;
+
+/// the crate-private dense matrix module (`src/algebra/dense/**`) on plain data (needs `sdp`)
+#[cfg(feature = "sdp")]
+pub use crate::algebra::verif_hooks_dense as dense;
